@@ -73,6 +73,9 @@ def make_plan(prop, pid, seed, i, tier):
 # ------------------------------------------------------------------ one run, in this process
 def execute(prop, plan, seed, choices=None, want_choices=False, want_log=False):
     """Run one plan.  Must be called in a fresh forked child (global state is consumed)."""
+    # every run starts from the same collector state whatever this process did before (a weak reference that is cleared by a
+    # collection at a history-dependent moment would make the run depend on the runs before it), and no collection happens during it
+    gc.collect()
     gc.disable()
     t0 = time.time()
     res = {'seed': seed}
